@@ -254,13 +254,13 @@ class Ctx:
         shutil.rmtree(self.scratch, ignore_errors=True)
 
 
-def prove(ctx, props_rel, deps_targets=None):
+def prove(ctx, props_rel, deps_targets=None, extra_targets=()):
     """Steps 1-2 of the protocol: regenerate facts, build the dependencies, re-check the property file.
     Returns the list of theorem names.  Raises Broken when an obligation fails."""
     run_srcfacts()
     props = os.path.join(COQ, props_rel)
     names = count_theorems(props)
-    ok, log = coq_make([props_rel.replace(".v", ".vo")] if deps_targets is None else deps_targets)
+    ok, log = coq_make(([props_rel.replace(".v", ".vo")] if deps_targets is None else deps_targets) + list(extra_targets))
     if not ok:
         m = re.search(r'File "([^"]+)", line (\d+)[^\n]*\n(.*)', log, flags=re.S)
         where = "%s line %s" % (m.group(1), m.group(2)) if m else "?"
